@@ -14,7 +14,7 @@ VHDL_ASSUME = [
     "numeric_std / std_logic_1164 operator semantics are those transcribed in specs/cohdl_semantics.py (no VHDL tool in the sandbox); counterexamples are replayed against the Python code only",
 ]
 
-C05_MODULES = ["contracts.core_models", "contracts.c09_arith", "contracts.c09_bounded", "contracts.c05_convert", "contracts.c05_format_cast", "contracts.c05_setters", "contracts.c05_join", "contracts.c05_castsetter"]
+C05_MODULES = ["contracts.core_models", "contracts.c09_arith", "contracts.c09_bounded", "contracts.c05_convert", "contracts.c05_format_cast", "contracts.c05_setters", "contracts.c05_join", "contracts.c05_castsetter", "contracts.c13_array"]
 
 C13_MODULES = ["contracts.core_models", "contracts.c09_bounded", "contracts.c13_types", "contracts.c13_views", "contracts.c13_array", "contracts.c13_refspec", "contracts.c13_alias"]
 
@@ -45,7 +45,7 @@ PROPERTIES = {
         ],
     },
     "C03": {
-        "modules": C05_MODULES + ["contracts.c08_temporaries", "contracts.c08_cleanup", "contracts.c03_lowering", "contracts.c03_condselect", "contracts.c04_reset", "contracts.c04_wrappers", "contracts.c02_assembler", "contracts.c13_types", "contracts.c06_stmts", "contracts.c02_frontend", "contracts.c03_decl", "contracts.c03_refvisit", "contracts.c13_refspec", "contracts.c03_out", "contracts.c10_frontend", "contracts.c03_match", "contracts.c02_replace", "contracts.c03_for", "contracts.c13_alias"],
+        "modules": C05_MODULES + ["contracts.c08_temporaries", "contracts.c08_cleanup", "contracts.c03_lowering", "contracts.c03_condselect", "contracts.c04_reset", "contracts.c04_wrappers", "contracts.c02_assembler", "contracts.c13_types", "contracts.c06_stmts", "contracts.c02_frontend", "contracts.c03_decl", "contracts.c03_refvisit", "contracts.c13_refspec", "contracts.c03_out", "contracts.c10_frontend", "contracts.c03_match", "contracts.c02_replace", "contracts.c03_for", "contracts.c13_alias", "contracts.c03_with"],
         "level": "proof",
         "explanation": "the statement is decided per lowering step, each proved from the real source: (1) the setter replacements of Signal/Variable/Temporary (<<=, .next, ^=, .push, @=, .value) accept exactly the documented target kinds and produce the assignment mode of the operator (C05 setter contracts); (2) IrGenerator._apply_impl lowers an assignment to exactly one SignalAssignment / SignalPush / VariableAssignment per open block according to mode, target kind and context kind (temporaries: immediate in sequential, continuous in concurrent contexts); (3) after an if/else execution continues in exactly the end blocks of both branches (25 x 2 arrangements of how branches end, incl. returns and state transitions), the If node being placed before its branches; (4) ir.Sequential._pushed_resettable_signals gives every pushed root -- also noreset roots and roots pushed only through a slice -- its default at the start of each step (reset_pushed), per event for arbitrary prior sets; (5) the process bodies built by std.sequential execute reset_pushed and then the user step exactly when trigger and step condition hold; (6) cleanup_bool_cast only replaces intermediates whose source is an intermediate, so a bool() taken before a later variable update keeps the old value.",
         "assumptions": COMMON_ASSUME + [
@@ -67,10 +67,12 @@ PROPERTIES = {
         "explanation": "reset behaviour is decided at its two implementation points, both proved from the real source: (1) the process bodies std._context._sequential_impl builds (no reset / asynchronous / synchronous): for arbitrary truth values of trigger, reset and step condition the activation performs exactly reset_context followed by every on_reset action when reset is active (asynchronous: whatever the trigger; synchronous: at the trigger, whatever the step condition) and nothing else, otherwise reset_pushed + the user step when trigger and step condition hold; the sensitivity list contains the reset signal exactly for asynchronous resets; (2) ir.Sequential._pushed_resettable_signals expands reset_context into exactly one default assignment per root written or pushed in the context that has a default and is not noreset -- flags and default are those of the ROOT also when the access goes through a slice or view; roots without default or marked noreset get none; all objects are collected before the statements are rewritten (event streams enumerated, per-event contract for arbitrary prior sets).",
         "assumptions": COMMON_ASSUME + [
             "'an embedded coroutine returns to its first state': the state variable of a statemachine is an ordinary written signal with a default (ir.Statemachine.as_case_when), so it is covered as a resettable root; that as_case_when declares it with the first state as default is not under contract",
-            "polarity and edge selection live in std.Clock / std.Reset (__bool__ of the trigger / reset objects): modelled as arbitrary truth values, their own definition is not under contract",
+            "polarity: std.Reset.__bool__ / active_high_signal / active_low_signal are under contract (level of the result as a function of 'reset is active', both polarities, inside and outside a synthesizable context); the clock edge selection of std.Clock is modelled as an arbitrary truth value, its own definition is not under contract",
+            "BOUNDED (contracts.c04_extra.reset_config_sweep, native): axi4_light.base_entity / addr_map_entity build their context with exactly the requested reset polarity / clock edge (all 16 configurations); ClockDivider, continuous_counter, ToggleSignal: the last value assigned in the reset branch of the emitted process equals the declaration's initial value (textual, 20 configurations)",
             "'from any state', 'after reset is released behaves as after power-up': follows from the structure above (reset assigns every resettable root its power-up default and executes nothing else); it is argued, not machine-checked over reachable design states -- no simulator",
             "locally constructed objects (no default, re-initialised by re-executing their declaration, _init_replacement) are not under contract",
         ],
+        "extra": ["contracts.c04_extra.reset_config_sweep"],
         "canaries": [
             {"name": "sync-reset-ignores-step-cond", "contract": "cohdl.std._context:_sequential_impl.<helper.wrapper#2 (sync reset)>", "case": "sync-reset,function", "file": "cohdl/std/_context.py",
              "old": "                if trigger:\n                    if reset:\n                        cohdl.reset_context()", "new": "                if trigger:\n                    if step_cond() and reset:\n                        cohdl.reset_context()"},
@@ -286,7 +288,7 @@ PROPERTIES = {
         ],
     },
     "C05": {
-        "modules": C05_MODULES,
+        "modules": C05_MODULES + ["contracts.c12_instances"],  # port connections: cohdl.Entity.__init__ (only that contract of the module is tagged C05)
         "level": "proof",
         "explanation": "acceptance and converted value of every primitive construction / assignment (Unsigned, Signed, BitVector, Bit, BitState) are proved equal to the conversion matrix of the statement for all widths and values; the backend cast selection (format_cast) is proved, for every (target root kind, view, whole/slice, value kind, literal/run-time) combination the front end accepts and all widths, to emit text whose numeric_std type is the declared object's type and whose bits are the converted bits; bit copies are bounded-checked natively",
         "assumptions": COMMON_ASSUME + BITLEVEL_ASSUME + VHDL_ASSUME + [
